@@ -733,8 +733,9 @@ def pieces(data, how):
 def run_mode(repo, name, cfg):
     """cfg: dict(key, nonce, header, msg, tlen, how) -> error string or None."""
     key, nonce, header, msg, tlen, how = cfg["key"], cfg["nonce"], cfg["header"], cfg["msg"], cfg["tlen"], cfg["how"]
+    hp = how if how in ("one", "bytes3", "blocks") else "one"          # how the header is fed: one update() unless the row is about pieces
     modname, fname, ref = {"eax": ("Crypto.Cipher._mode_eax", "_create_eax_cipher", lambda: ref_eax(key, nonce, header, msg, tlen)),
-                           "siv": ("Crypto.Cipher._mode_siv", "_create_siv_cipher", lambda: ref_siv(key, [x for x in pieces(header, how) if x] if header else [], nonce, msg)),
+                           "siv": ("Crypto.Cipher._mode_siv", "_create_siv_cipher", lambda: ref_siv(key, [x for x in pieces(header, hp) if x] if header else [], nonce, msg)),
                            "ccm": ("Crypto.Cipher._mode_ccm", "_create_ccm_cipher", lambda: ref_ccm(key, nonce, header, msg, tlen)),
                            "gcm": ("Crypto.Cipher._mode_gcm", "_create_gcm_cipher", lambda: ref_gcm(key, nonce, header, msg, tlen)),
                            "ocb": ("Crypto.Cipher._mode_ocb", "_create_ocb_cipher", lambda: ref_ocb(key, nonce, header, msg, tlen)),
@@ -788,7 +789,7 @@ def run_mode(repo, name, cfg):
     if not isinstance(o, AObj):
         return "constructor: %r" % (o,)
     if header:
-        for p in pieces(header, how):
+        for p in pieces(header, hp):
             if name == "siv" and not p:
                 continue            # every update() of SIV is one component of the S2V vector
             r = w.call(o, "update", give(w, p))
@@ -855,7 +856,7 @@ def run_mode(repo, name, cfg):
         if not isinstance(o, AObj):
             return "constructor (receiver): %r" % (o,)
         if h2:
-            for p in pieces(h2, how):
+            for p in pieces(h2, hp):
                 if name == "siv" and not p:
                     continue
                 w.call(o, "update", give(w, p))
